@@ -30,7 +30,8 @@ import (
 type c20File struct {
 	Path    string            `json:"path"`
 	Values  map[string]string `json:"values"`
-	Emitter bool              `json:"emitter"` // written by plainmap.PlainStringMapToJSON
+	Numbers map[string]string `json:"numbers,omitempty"` // key -> JSON number literal (only for files written by encoding/json)
+	Emitter bool              `json:"emitter"`           // written by plainmap.PlainStringMapToJSON
 }
 
 type c20In struct {
@@ -60,7 +61,7 @@ func c20Gen(r *Rand, tier string) interface{} {
 	if tier == "thorough" && r.Chance(1, 10) {
 		nf = 7 + r.Intn(20)
 	}
-	dirs := []string{"", "en/", "en/sub/", "pl/", "deep/a/b/"}
+	dirs := []string{"", "en/", "en/sub/", "pl/", "deep/a/b/", "odd.json/", "odd.json/inner/"}
 	for f := 0; f < nf; f++ {
 		file := c20File{Path: fmt.Sprintf("%sf%d.json", dirs[r.Intn(len(dirs))], f), Values: map[string]string{}, Emitter: r.Chance(1, 3)}
 		// prefix-free keys: leaves f<f>.k<i> and f<f>.g<i>.x
@@ -75,6 +76,16 @@ func c20Gen(r *Rand, tier string) interface{} {
 			}
 			if r.Chance(1, 8) {
 				key = fmt.Sprintf("top%d_%d", f, k)
+			}
+			if r.Chance(1, 8) {
+				key = fmt.Sprintf("f%d.deep%d.a.b.c.d", f, k)
+			}
+			if !file.Emitter && r.Chance(1, 6) {
+				if file.Numbers == nil {
+					file.Numbers = map[string]string{}
+				}
+				file.Numbers[key] = []string{"0", "12", "-3.5", "1e3", "1E-2", "123456789012345678901234567890", "-0.0"}[r.Intn(7)]
+				continue
 			}
 			file.Values[key] = c20Value(r, fmt.Sprintf("v%d_%d:", f, k))
 		}
@@ -95,9 +106,16 @@ func c20Gen(r *Rand, tier string) interface{} {
 	return in
 }
 
-func c20Nest(flat map[string]string) map[string]interface{} {
+func c20Nest(flat map[string]string, numbers map[string]string) map[string]interface{} {
 	out := map[string]interface{}{}
+	all := map[string]interface{}{}
 	for k, v := range flat {
+		all[k] = v
+	}
+	for k, v := range numbers {
+		all[k] = json.RawMessage(v)
+	}
+	for k, v := range all {
 		parts := strings.Split(k, ".")
 		m := out
 		for _, p := range parts[:len(parts)-1] {
@@ -175,7 +193,7 @@ func c20Run(inI interface{}, env *Env) *Failure {
 				}
 				data = []byte(s)
 			} else {
-				data, _ = json.Marshal(c20Nest(f.Values))
+				data, _ = json.Marshal(c20Nest(f.Values, f.Numbers))
 			}
 			std, err := c20StdFlatten(data)
 			if err != nil {
@@ -269,6 +287,12 @@ func c20Shrink(inI interface{}) []interface{} {
 			for k, v := range f.Values {
 				nf.Values[k] = v
 			}
+			for k, v := range f.Numbers {
+				if nf.Numbers == nil {
+					nf.Numbers = map[string]string{}
+				}
+				nf.Numbers[k] = v
+			}
 			c.Files = append(c.Files, nf)
 		}
 		c.Decoys = append([]string(nil), in.Decoys...)
@@ -299,6 +323,11 @@ func c20Shrink(inI interface{}) []interface{} {
 		if f.Emitter {
 			c := cp()
 			c.Files[i].Emitter = false
+			out = append(out, c)
+		}
+		for _, k := range sortedNamesS(f.Numbers) {
+			c := cp()
+			delete(c.Files[i].Numbers, k)
 			out = append(out, c)
 		}
 	}
